@@ -248,7 +248,8 @@ pub fn def() -> PropDef {
         rule: "lists of 0..~60 pairs (one list in six is long; one in twenty is cycled to 63..66, 127..130, 255..258, 511..514 or 1023..1026 pairs) ([a_i]g1, [b_i]g2) from points with known discrete logs (identity, small multiples, pool subgroup points, negations) built from items: single pairs, (P,Q),(-P,Q), three-term cancellations (P1,Q),(P2,Q),(-(P1+P2),Q), repeated pairs; the same prepared elements re-evaluated in rotated / reversed orders and on sub-lists. Oracle: published e(g1,g2) raised to sum a_i b_i mod r in the model; exactly 1 for cancelling lists; product of the individual pairings taken in the model; pairing_multi_product and (two pairs) pairing_product agree; empty list gives 1. Non-trivial = at least 2 pairs with an identity or a cancellation; distinct = distinct cases",
         needs_pairing: true,
         subs: vec![
-            Box::new(crate::engine::EnumSub { name: "long-history", rule: super::longhist::RULE, run: run_long_history, replay: super::longhist::replay, exhaustive: false }),Box::new(Sub { name: "pair-lists", rule: "final_exponentiation(miller_loop(list)) == published^(sum a_i b_i) == product of singles == helpers; prepared reuse", quick: 2_800, thorough: 25_000, strategy: || boxed(list_strategy()), check: check_list })],
+            Box::new(crate::engine::EnumSub { name: "long-history", rule: super::longhist::RULE, run: run_long_history, replay: super::longhist::replay, exhaustive: false }),
+            Box::new(crate::engine::EnumSub { name: "two-input-bursts", rule: super::longhist::BURST_RULE, run: run_two_input_bursts, replay: super::longhist::replay_burst, exhaustive: false }),Box::new(Sub { name: "pair-lists", rule: "final_exponentiation(miller_loop(list)) == published^(sum a_i b_i) == product of singles == helpers; prepared reuse", quick: 2_800, thorough: 25_000, strategy: || boxed(list_strategy()), check: check_list })],
         assumptions: {
             let mut v = COMMON_ASSUMPTIONS.to_vec();
             v.push("pairing_multi_product is only called with slices of equal length, as the property states");
